@@ -131,6 +131,9 @@ def gen(seed, scale):
     for pal in palettes(rnd):
         for kind in KINDS[:3 + scale]:
             cases.append(("hrstoppm", bytes(pal) + content(rnd, 160 * 192, kind), {}, "hrs/%s" % kind, "raw"))
+    # palette bytes above 63: only bits 0..5 denote the colour, the rest is don't-care
+    for hi in (0x40, 0x80, 0xC0):
+        cases.append(("hrstoppm", bytes((p | hi) for p in range(16)) + content(rnd, 160 * 192, "nib"), {}, "hrs/palette bytes | 0x%02X" % hi, "raw"))
     for w, h, skip in ((320, 192, 5), (2, 1, None), (640, 10, 0), (4, 3, 1), (320, 200, None)):
         data = bytes(skip or 0) + bytes(range(16)) + content(rnd, (w // 2) * h, "rand")
         cases.append(("hrstoppm", data, dict(width=w, height=h, skip=skip), "hrs/%dx%d,skip=%s" % (w, h, skip), "options"))
@@ -230,6 +233,8 @@ def gen(seed, scale):
             b[rnd.randrange(len(b))] = rnd.randrange(256)
         damaged.append((tool, bytes(b), opts, label + ",body-noise", "damaged"))
         damaged.append((tool, data + bytes(rnd.randrange(256) for _ in range(9)), opts, label + ",appended", "damaged"))
+    for n in (4, 12, 24, 40, 60, 7812, 8064, 31, 33):      # PIX sizes next to squares: (s*s-1)/2 for odd s, s*s/2 +- 1
+        damaged.append(("pixtopgm", bytes(rnd.randrange(256) for _ in range(n)), {}, "pixtopgm/%d bytes (not half a square)" % n, "damaged"))
     for tool in ("hrstoppm", "rattoppm", "mgetoppm", "cm3toppm", "maxtoppm", "pixtopgm"):
         for n in (0, 1, 3, 18, 30, 60):
             damaged.append((tool, bytes(rnd.randrange(256) for _ in range(n)), {}, "%s/random %d bytes" % (tool, n), "damaged"))
